@@ -382,7 +382,8 @@ def tasks(tier):
         for V, eos, T in [(2, None, 2), (2, 1, 2), (2, 0, 3), (2, 1, 3)]:
             W = _ncomplete(V, eos, T) + (1 if eos is None else 0)
             ts.append(task(PROP, M_, "BeamSearchH", V=V, width=W, eos=eos, finish_all=True, max_iters=T, N=1, complete=True))
-        for V, W, eos, fa, T in [(2, 2, 1, False, 3), (2, 2, 0, True, 3), (3, 2, 1, False, 2), (2, 3, None, False, 2)]:
+        # incl. beams wider than the vocabulary with eos: one element can freeze with a non-full beam while the other goes on
+        for V, W, eos, fa, T in [(2, 2, 1, False, 3), (2, 2, 0, True, 3), (3, 2, 1, False, 2), (2, 3, None, False, 2), (2, 3, 1, False, 3), (2, 4, 0, True, 2)]:
             ts.append(task(PROP, M_, "BeamBatchH", V=V, width=W, eos=eos, finish_all=fa, max_iters=T))
     else:
         for V in (2, 3):
